@@ -187,6 +187,18 @@ K("C11/try-from/normalised", ["C11", "C02", "C05"], BD + "c11_try_from_result_is
 K("C11/spec/idempotent", ["C11"], BD + "c11_normalise_idempotent_and_valid", [],
   "spec-level lemma: ref_normalise is idempotent and preserves ref_valid (so re-validating a validated board changes nothing)", timeout=1800)
 
+# ---------------------------------------------------------------------------------------------
+# C01 legality decision
+# ---------------------------------------------------------------------------------------------
+LG = "legal::verif_kani::"
+for _s, _k in KINDS:
+    for _c in ("w", "b"):
+        K("C01/legal/is-legal/%s/%s" % (_k, _c), ["C01", "C02", "C07", "C09"], LG + "c01_is_legal_%s_%s" % (_s, _c),
+          ["legal::Checker::new", "legal::Checker::is_legal", "legal::Checker::is_attacked", "legal::DefaultPrechecker::new", "legal::DefaultPrechecker::pinned",
+           "legal::DefaultPrechecker::bishop_xray", "legal::DefaultPrechecker::rook_xray", "legal::DefaultPrechecker::is_legal_pre", "Move::is_legal_unchecked", "Move::validate"],
+          "for all well-formed boards (side %s, one king each, consistent mark, normalised rights) x all pseudo-legal moves of kind %s: is_legal with NilPrechecker == is_legal with DefaultPrechecker == validate().is_ok() == (mover's king not attacked in ref_apply(position, move))" % (_c, _k),
+          assumes=TABLES + ["C15/between/all-pairs", "C15/pawns/advances", "C16/check-queries", "C06/semilegal/%s/%s" % (_k, _c)], timeout=2400, mem_gb=16)
+
 
 def by_id():
     return {o["id"]: o for o in OBS}
